@@ -118,3 +118,15 @@ Definition run_inf_float (oc : ocp) (ics : list iconstr) (pq : point Q) :=
   let pt := @point_of_Q _ FloatOps pq in
   let L := @lists_any _ FloatOps oc pt in
   map (fun r => (Z.of_nat (rw_id r), rw_pt r, rw_h r)) (@inf_rows _ FloatOps L ics).
+
+(* multi-stage NLP: objective, rows (constraint ids offset by 1000 * stage tag), acceptance *)
+From RV Require Import Mech.Stages.
+Definition run_multi_float (mu : multi) (pq : list (point Q) * list Q) :=
+  let pts := map (@point_of_Q _ FloatOps) (fst pq) in
+  let V := cvf (snd pq) in
+  (@multi_objective _ FloatOps mu pts V,
+   map (fun r => (kind_code (rw_kind (snd r)),
+                  (Z.of_nat (fst r) * 1000 + Z.of_nat (rw_id (snd r)))%Z,
+                  rw_pt (snd r), sense_code (rw_sense (snd r)), rw_h (snd r)))
+       (@multi_rows _ FloatOps mu pts V),
+   @nil (list (list PrimFloat.float)), multi_accepts mu).
